@@ -60,3 +60,16 @@ cdef datetime_from_timestamp(double timestamp):
     microseconds += <int>tmp
 
     return DATETIME_EPOC + timedelta_new(days, seconds, microseconds)
+
+
+cdef datetime_from_ms_timestamp(int64_t timestamp_ms):
+    # exact integer arithmetic: a double of seconds loses microseconds far from the epoch
+    cdef int64_t day_in_ms = 86400000
+    cdef int64_t days = timestamp_ms // day_in_ms
+    cdef int64_t rem = timestamp_ms % day_in_ms
+    if rem < 0:
+        rem += day_in_ms
+        days -= 1
+    if days > 999999999 or days < -999999999:
+        raise OverflowError("date value out of range")
+    return DATETIME_EPOC + timedelta_new(<int> days, <int> (rem // 1000), <int> (rem % 1000) * 1000)
